@@ -309,7 +309,7 @@ func (c *c20) checkErrorBody(cause string, resp c20Resp) {
 var leakWords = []string{"VERIF-INJECTED", "sql", "SQL", "constraint", "UNIQUE", "sqlite", "lnmodel", "transport error", "database"}
 
 func runC20(r *core.Run) {
-	r.Rule("hand-built JSON through the real HTTP router: (1) every endpoint's success answer is validated against validators written from the NUTs (string states in the NUT enumerations, 66-hex points, 16-hex ids = NUT-02 derivation, 60 keys in ascending numeric order in the raw bytes, dleq e/s); (2) every row of the cause -> code table is provoked by its canonical trigger and must answer 400 with exactly {detail: string, code: int} and that code; (3) a storage / Lightning fault (single, and persistent from call k on) at every boundary of every endpoint must answer 400, code 10000, without the injected marker or storage text; (4) NUT-19: a byte-identical replay of a successful swap / mint returns the byte-identical body with no state-changing DB call, every near-replay (whitespace, key order, query string, other path, GET, same quote with other outputs) is executed and not answered from the cache; non-trivial = distinct (endpoint outcome | cause | fault point | replay kind) cases evaluated")
+	r.Rule("hand-built JSON through the real HTTP router: (1) every endpoint's success answer is validated against validators written from the NUTs (string states in the NUT enumerations, 66-hex points, 16-hex ids = NUT-02 derivation, 60 keys in ascending numeric order in the raw bytes, dleq e/s); (2) every row of the cause -> code table is provoked by its canonical trigger and must answer 400 with exactly {detail: string, code: int} and that code; (3) a storage / Lightning fault (single, and persistent from call k on) at every boundary of every endpoint must answer 400, code 10000, without the injected marker or storage text; (4) NUT-19: a byte-identical replay of a successful swap / mint returns the byte-identical body with no state-changing DB call, every near-replay (whitespace, key order, query string, other path, GET, same quote with other outputs) is executed and not answered from the cache; every cached request is replayed twice more after 24 further swaps and 3 mints have been answered (byte-identical, no state-changing call); non-trivial = distinct (endpoint outcome | cause | fault point | replay kind) cases evaluated")
 	r.Assume("the 5-minute cache TTL and quote expiry are not driven (no injectable clock)")
 	nh := pick(r, 3, 16)
 	core.Parallel(nh, 8, func(h int) {
